@@ -22,6 +22,7 @@ import (
 	"context"
 	"encoding/json"
 	"errors"
+	"sync"
 	"time"
 
 	"github.com/bradfitz/gomemcache/memcache"
@@ -34,6 +35,9 @@ var _ SessionStore = (*SessionStoreImpl[[]byte])(nil)
 // defaultSessionDataTTL is the default time to live for session data
 // some stores require a default
 var defaultSessionDataTTL = 15 * time.Minute
+
+// getAndDeleteMutex makes SessionStoreImpl.GetAndDelete atomic with respect to other GetAndDelete calls on this node.
+var getAndDeleteMutex sync.Mutex
 
 // StringOrBytes is a type that can be either a string or a byte slice
 // used for generic type constraints
@@ -102,6 +106,10 @@ func (s SessionStoreImpl[T]) Put(key string, value interface{}, options ...Sessi
 	return s.underlying.Set(context.Background(), s.db.getFullKey(s.prefixes, key), T(bytes), store.WithExpiration(opts.ttl))
 }
 func (s SessionStoreImpl[T]) GetAndDelete(key string, target interface{}) error {
+	// Get and Delete are separate operations on the underlying cache (and deleting a missing key succeeds),
+	// so concurrent callers must be serialised, otherwise several of them can redeem the same one-time value.
+	getAndDeleteMutex.Lock()
+	defer getAndDeleteMutex.Unlock()
 	if err := s.Get(key, target); err != nil {
 		return err
 	}
